@@ -411,8 +411,8 @@ PROPERTY = {
         not_decided=['which width groups are frozen and that whole exported architectures still run: decided only for the enumerated topologies of contracts/pit_graph.py and the enumerated '
                      'whole models of contracts/whole_pit.py (bounded in topology), not for every architecture',
                      'float32 absorption for huge parameter values such as 1e30 (A-real)',
-                     'known findings on the unchanged tree (known_findings.json): a network whose output is a channel concatenation loses output channels; a temporal convolution with '
-                     'built-in symmetric padding changes the output length when its receptive field is pruned'],
+                     'known finding on the unchanged tree (known_findings.json): a temporal convolution with built-in symmetric padding changes the output length when its receptive field is pruned '
+                     '(the concatenated-output defect was repaired: /repo ea4435a)'],
         assumptions=['single-node fx bookkeeping (get_submodule / add_submodule / inserting_before / call_module) as specified in pyvc/torchlib.py'],
     ),
     'C01': dict(
